@@ -61,7 +61,7 @@ def lattices(draw, max_n=12, flags=True, min_cells=1, spacings=SPACINGS):
         have = set(map(tuple, cells))
         pair = next(((c, n) for c in cells for n in ([c[0] + 1, c[1]], [c[0], c[1] + 1]) if tuple(n) in have), None)
         if pair is None:
-            dh_mode = "diff"
+            dh_mode = "decimal"     # no two neighbouring cells: the spacing cannot be inferred, it has to be given
         else:
             cells = [pair[0], pair[1]] + [c for c in cells if c != pair[0] and c != pair[1]]
     return {"dh": dh, "lon0": dec(lon0, d), "lat0": dec(lat0, d), "cells": cells, "flags": fl,
